@@ -1042,7 +1042,8 @@ class DocGen:
                     p = 0.55 if depth < self.max_depth else 0.0
                     if r.random() >= p:
                         continue
-                if f.get("null") and r.random() < (0.45 if f["t"]["k"] == "union" else 0.3):
+                if f.get("null") and (depth >= self.max_depth or       # required nullable recursion must end too
+                                      r.random() < (0.45 if f["t"]["k"] == "union" else 0.3)):
                     out[f["name"]] = None
                     continue
                 if not f["req"] and r.random() < 0.07:
